@@ -362,6 +362,15 @@ pub fn c15(ctx: &RunCtx) -> Vec<Finding> {
                 }
             } else if rate == 1.0 {
                 let first = ctx.cfg.mutators.iter().find(|mk| applicable(**mk, kind, ctx.cfg.unsafe_mut, m.input.is_empty()));
+                // a mutator that fires although the documentation table does not list it for this kind is taken as
+                // applicable (the statement only demands that nobody *earlier and applicable* was skipped)
+                let fired_pos = m.fired.as_ref().and_then(|who| ctx.cfg.mutators.iter().position(|mk| mk.name() == who));
+                let first_pos = first.and_then(|mk| ctx.cfg.mutators.iter().position(|x| x == mk));
+                if let (Some(fp), Some(ap)) = (fired_pos, first_pos) {
+                    if fp < ap {
+                        continue;
+                    }
+                }
                 match (first, &m.fired) {
                     (Some(mk), Some(who)) if mk.name() == who => {}
                     (Some(mk), other) => v.push(f(
@@ -369,7 +378,7 @@ pub fn c15(ctx: &RunCtx) -> Vec<Finding> {
                         format!("rate1-declined:{}:{kind}", mk.name()),
                         format!("step {i} ({opname}): {kind} value should be mutated by {} at rate 1.0 but was mutated by {:?}", mk.name(), other),
                     )),
-                    (None, Some(who)) => v.push(f("C15", format!("rate1-unexpected:{who}:{kind}"), format!("step {i} ({opname}): {who} is not documented to handle {kind} values"))),
+                    (None, Some(_)) => {}
                     (None, None) => {}
                 }
             }
